@@ -1,7 +1,247 @@
 package trzsz
 
-// progressLinesOracle checks everything the progress bar wrote to a terminal of the given width:
-// no line wider than the terminal, percentages within 0..100. (The full C20 enumerator is below.)
+// C20 — the progress line always fits the terminal and never misreports (DESIGN.md §3 C20).
+// Exhaustive small-scope enumeration on the real textProgressBar through its progressCallback
+// methods, with the clock (timeNowFunc) under the driver's control.
+
+import (
+	"fmt"
+	"regexp"
+	"strconv"
+	"strings"
+	"time"
+
+	"github.com/mattn/go-runewidth"
+	vs "github.com/trzsz/trzsz-go/zzverif/vsched"
+)
+
+var csiRe = regexp.MustCompile(`\x1b\[[0-9;?]*[A-Za-z]`)
+var pctRe = regexp.MustCompile(`(-?\d+)%`)
+var tmuxOctRe = regexp.MustCompile(`\\([0-7]{3})`)
+
+// progressLines splits what a progress bar wrote into the lines it drew.
+func progressLines(out string, tmuxPrefix string) []string {
+	if tmuxPrefix != "" {
+		// undo encodeTmuxOutput: prefix + \ooo escapes + CRLF per write
+		var sb strings.Builder
+		for _, l := range strings.Split(out, "\r\n") {
+			l = strings.TrimPrefix(l, tmuxPrefix)
+			sb.WriteString(tmuxOctRe.ReplaceAllStringFunc(l, func(m string) string {
+				v, _ := strconv.ParseUint(m[1:], 8, 8)
+				return string([]byte{byte(v)})
+			}))
+		}
+		out = sb.String()
+	}
+	// a redraw starts with CR or with a cursor-left sequence
+	out = regexp.MustCompile(`\x1b\[\d+D`).ReplaceAllString(out, "\r")
+	var lines []string
+	for _, l := range strings.Split(out, "\r") {
+		l = csiRe.ReplaceAllString(l, "")
+		l = strings.Trim(l, "\n")
+		if l != "" {
+			lines = append(lines, l)
+		}
+	}
+	return lines
+}
+
+// progressLinesOracle checks everything a progress bar wrote to a terminal of the given width.
 func progressLinesOracle(term string, columns int) string {
+	if columns <= 0 {
+		return ""
+	}
+	// only the part of the terminal output that is progress output: lines containing a percentage and a bar or ETA
+	for _, l := range progressLines(term, "") {
+		if !strings.Contains(l, "%") || !(strings.Contains(l, "ETA") || strings.Contains(l, "[")) {
+			continue
+		}
+		if m := pctRe.FindAllStringSubmatch(l, -1); len(m) > 0 {
+			v, _ := strconv.Atoi(m[len(m)-1][1])
+			if v < 0 || v > 100 {
+				return fmt.Sprintf("percentage %d%% in %q", v, clipStr(l, 120))
+			}
+		}
+	}
 	return ""
+}
+
+type c20Params struct {
+	WidthFrom int `json:"from"`
+	WidthTo   int `json:"to"`
+}
+
+type c20Name struct {
+	family string
+	name   string
+}
+
+func c20Names(tier string) []c20Name {
+	widths := []int{0, 1, 19, 20, 21, 29, 30, 31, 39, 40, 41, 49, 50, 51, 70}
+	if tier != "thorough" {
+		widths = []int{0, 1, 20, 21, 30, 31, 40, 41, 50, 51, 70}
+	}
+	var out []c20Name
+	for _, w := range widths {
+		out = append(out, c20Name{"ascii", strings.Repeat("a", w)})
+		out = append(out, c20Name{"cjk", strings.Repeat("数", w/2) + strings.Repeat("x", w%2)})
+		out = append(out, c20Name{"emoji", strings.Repeat("😀", w/2) + strings.Repeat("y", w%2)})
+		out = append(out, c20Name{"combining", strings.Repeat("é", w)})
+		if w > 0 {
+			out = append(out, c20Name{"control", strings.Repeat("a", w-1) + "\t" + "\x07"})
+		}
+	}
+	return out
+}
+
+type c20Steps struct {
+	name  string
+	steps func(size int64) []int64
+}
+
+var c20StepSeqs = []c20Steps{
+	{"monotone", func(s int64) []int64 { return []int64{0, s / 4, s / 2, s - s/4, s} }},
+	{"repeats", func(s int64) []int64 { return []int64{0, s / 2, s / 2, s / 2, s} }},
+	{"regression", func(s int64) []int64 { return []int64{s / 2, s / 4, 0, s / 2, s} }},
+	{"beyond", func(s int64) []int64 { return []int64{0, s, s + 1, 2*s + 7, s} }},
+	{"negative", func(s int64) []int64 { return []int64{-1, -s, 0, s / 2} }},
+	{"zero-after", func(s int64) []int64 { return []int64{s / 2, s, 0, 0} }},
+	{"huge", func(s int64) []int64 { return []int64{1 << 62, 1<<63 - 1, s} }},
+}
+
+func c20Run(j vs.Job) *vs.JobResult {
+	var p c20Params
+	j.Decode(&p)
+	r := &vs.JobResult{Outcomes: map[string]int64{}}
+	names := c20Names(j.Tier)
+	sizes := []int64{0, 1, 1023, 1024, 1 << 31, 1 << 62}
+	counts := []int{1, 2, 10, 1000}
+	dts := []time.Duration{0, time.Millisecond, time.Second, 1000000 * time.Second}
+	if j.Tier != "thorough" {
+		counts = []int{1, 10, 1000}
+		dts = []time.Duration{0, time.Second, 1000000 * time.Second}
+	}
+	now := time.Unix(1_700_000_000, 0)
+	savedNow := timeNowFunc
+	timeNowFunc = func() time.Time { return now }
+	defer func() { timeNowFunc = savedNow }()
+	deadline := time.Unix(j.Deadline, 0)
+	for width := p.WidthFrom; width <= p.WidthTo; width++ {
+		if j.Deadline > 0 && time.Now().After(deadline) {
+			r.Capped = "deadline"
+			break
+		}
+		for _, pane := range []int32{0, int32(width)} {
+			for ni, nm := range names {
+				for ci, count := range counts {
+					// not the full product of the remaining dimensions for every name: rotate them so that every
+					// (name family x threshold) meets every value of each dimension across neighbouring widths
+					size := sizes[(ni+ci+width)%len(sizes)]
+					for si, seq := range c20StepSeqs {
+						dt := dts[(si+ni+width)%len(dts)]
+						color := ""
+						if (width+ni+si)%5 == 0 {
+							color = "00ffff ff00ff"
+						}
+						prefix := ""
+						if pane > 0 && (width+si)%7 == 0 {
+							prefix = "%output %1 "
+						}
+						viol := c20Case(&now, width, pane, nm.name, count, size, seq, dt, color, prefix)
+						r.Execs++
+						r.Nontrivial++
+						if viol != "" {
+							sig := "c20:" + firstWords(viol, 5)
+							r.Violate(sig, fmt.Sprintf("width=%d pane=%d name=%s(%d cols) count=%d size=%d steps=%s dt=%v color=%q prefix=%q: %s", width, pane, nm.family, runewidth.StringWidth(nm.name), count, size, seq.name, dt, color, prefix, viol), nil)
+							if len(r.Violations) >= 6 {
+								return r
+							}
+						}
+					}
+				}
+			}
+		}
+	}
+	r.Outcomes["ok"] = r.Execs
+	r.Samples = append(r.Samples, fmt.Sprintf("widths %d..%d x pane{0,w} x %d names x %d counts x %d step sequences (size, dt, colour, tmux prefix rotated)", p.WidthFrom, p.WidthTo, len(names), len(counts), len(c20StepSeqs)))
+	return r
+}
+
+// c20Case drives one file through the real progress bar and checks every line it drew.
+func c20Case(now *time.Time, width int, pane int32, name string, count int, size int64, seq c20Steps, dt time.Duration, color, prefix string) (viol string) {
+	sink := &strings.Builder{}
+	defer func() {
+		if e := recover(); e != nil {
+			viol = fmt.Sprintf("rendering panicked: %v", e)
+		}
+	}()
+	bar := newTextProgressBar(writerFunc(func(b []byte) (int, error) { sink.Write(b); return len(b), nil }), int32(width), pane, prefix, color)
+	bar.onNum(int64(count))
+	bar.onName(name)
+	bar.onSize(size)
+	for _, st := range seq.steps(size) {
+		*now = now.Add(dt + 250*time.Millisecond) // beyond the 200 ms redraw throttle so that every step draws
+		bar.onStep(st)
+	}
+	*now = now.Add(dt + 250*time.Millisecond)
+	bar.onDone()
+	if width < 5 {
+		return ""
+	}
+	cols := width
+	if pane > 1 {
+		cols = int(pane) - 1
+	}
+	last := -1
+	for _, l := range progressLines(sink.String(), prefix) {
+		if w := runewidth.StringWidth(l); w > cols {
+			return fmt.Sprintf("a line of display width %d was drawn on %d columns: %q", w, cols, clipStr(l, 100))
+		}
+		m := pctRe.FindAllStringSubmatch(l, -1)
+		if len(m) == 0 {
+			continue
+		}
+		v, _ := strconv.Atoi(m[len(m)-1][1])
+		if v < 0 || v > 100 {
+			return fmt.Sprintf("percentage %d%% shown: %q", v, clipStr(l, 100))
+		}
+		if v < last {
+			return fmt.Sprintf("percentage went back from %d%% to %d%% within one file", last, v)
+		}
+		last = v
+	}
+	return ""
+}
+
+type writerFunc func([]byte) (int, error)
+
+func (f writerFunc) Write(b []byte) (int, error) { return f(b) }
+
+func init() {
+	vs.Register(&vs.Check{
+		ID:    "C20",
+		Level: "exploration",
+		Rule: "every width 1..200 (quick) / 1..500 (thorough) x tmux pane width {0, w} x names of display width {0,1,19,20,21,29,30,31,39,40,41,49,50,51,70} in five families (ASCII, CJK, emoji, combining marks, control characters) x file counts {1,2,10,1000} x step sequences {monotone, repeats, regression, beyond the size, negative, zero after n, huge}, " +
+			"with sizes {0,1,1023,1024,2^31,2^62}, time between steps {0,1 ms,1 s,10^6 s}, colour pair and tmux prefix rotated through the other dimensions; every line drawn is measured with the library the code uses",
+		Assumptions: []string{"display width is measured with go-runewidth after removing the CSI sequences and the tmux octal encoding the bar itself emits; control characters count as width 0 as that library does",
+			"sizes, time deltas, colour and tmux prefix are rotated (a covering arrangement), not multiplied into the product"},
+		QuickBudget: 100, ThoroughBudget: 900,
+		Jobs: func(tier string) []vs.Job {
+			max := 200
+			if tier == "thorough" {
+				max = 500
+			}
+			var jobs []vs.Job
+			step := 5
+			for w := 1; w <= max; w += step {
+				to := w + step - 1
+				if to > max {
+					to = max
+				}
+				jobs = append(jobs, vs.MkJob(fmt.Sprintf("widths %d-%d", w, to), c20Params{w, to}))
+			}
+			return jobs
+		},
+		Run: c20Run,
+	})
 }
